@@ -821,3 +821,103 @@ func runMultiContract(p *Program, r *RuleResult) {
 		r.add(fn, "multi-provider-contraction-gate", Violated, p.pos(d.Driver.Pos()), partial)
 	}
 }
+
+// R-CUT-SPLIT (C05): the cut hands the spawned body exactly the names it mentions.
+func init() {
+	register(&Rule{Name: "R-CUT-SPLIT", Min: 2,
+		Doc: "at every cut the context is split by the helper applied to the free names (or call parameters) of the very form that is then typed as the body, with no name exempted from the split; the body is typed in the first result and the continuation in the second",
+		Run: runCutSplit})
+}
+
+func runCutSplit(p *Program, r *RuleResult) {
+	n := 0
+	for _, m := range p.typecheckMethods() {
+		name := fnName(m.Fn)
+		for _, c := range p.callsIn(m.Fn) {
+			call, ok := c.(*ssa.Call)
+			if !ok {
+				continue
+			}
+			sc := call.Common().StaticCallee()
+			if sc == nil || sc.Signature.Results().Len() != 3 || !isCtxType(sc.Signature.Results().At(0).Type()) || !isCtxType(sc.Signature.Results().At(1).Type()) {
+				continue
+			}
+			n++
+			construct := fmt.Sprintf("cut-split#%d", n)
+			args := call.Common().Args
+			var left, right ssa.Value
+			for _, u := range *call.Referrers() {
+				if ex, ok := u.(*ssa.Extract); ok {
+					switch ex.Index {
+					case 0:
+						left = ex
+					case 1:
+						right = ex
+					}
+				}
+			}
+			// judgements using the two halves
+			var bodyCall, contCall *ssa.Call
+			for _, k := range m.Conts {
+				for _, a := range k.Common().Args {
+					if isCtxType(a.Type()) {
+						if left != nil && origin(a) == left {
+							bodyCall = k
+						}
+						if right != nil && origin(a) == right {
+							contCall = k
+						}
+					}
+				}
+			}
+			var problems []string
+			if bodyCall == nil {
+				problems = append(problems, "no judgement is typed in the first (body) half of the split")
+			}
+			if contCall == nil {
+				problems = append(problems, "no judgement is typed in the second (continuation) half of the split")
+			}
+			if origin(args[0]) != ssa.Value(m.Gamma) {
+				problems = append(problems, "the context that is split is not the rule's incoming context")
+			}
+			// names argument: FreeNames() of the body form, or the parameters of the body asserted to a call form
+			if bodyCall != nil {
+				bodyPath := accessPath(bodyCall.Common().Value)
+				okNames := false
+				switch x := args[1].(type) {
+				case *ssa.Call:
+					if x.Common().IsInvoke() && x.Common().Method.Name() == "FreeNames" && accessPath(x.Common().Value) == bodyPath {
+						okNames = true
+					}
+				case *ssa.UnOp:
+					// load of a []Name field of a value asserted from the body
+					if fa, ok := x.X.(*ssa.FieldAddr); ok {
+						base := fa.X
+						if ex, ok := base.(*ssa.Extract); ok {
+							base = ex.Tuple
+						}
+						if ta, ok := base.(*ssa.TypeAssert); ok && accessPath(ta.X) == bodyPath {
+							okNames = true
+						}
+					}
+				}
+				if !okNames {
+					problems = append(problems, "the names taken out of the context are not the free names/parameters of the form typed as the body")
+				}
+			}
+			// no exemption
+			for _, a := range args[2:] {
+				if isNamed(a.Type(), processPkg, "Name") {
+					if !isNilConst(a) {
+						problems = append(problems, "a name is exempted from the split ("+describeVal(a)+"): if the body mentions it, it is neither handed to the body nor removed from the context, so a live channel of that name is silently shadowed")
+					}
+				}
+			}
+			if len(problems) == 0 {
+				r.add(name, construct, Holds, p.instrPos(call), "")
+			} else {
+				r.add(name, construct, Violated, p.instrPos(call), strings.Join(problems, "; "))
+			}
+		}
+	}
+}
